@@ -10,6 +10,18 @@ TEST_CMD = "cd /repo && /venv/bin/python -m pytest -ra -q -p no:cacheprovider --
 
 # id -> (level, technique, text, note, design_ref)
 CHECKS = {
+ "C01": ("model_checking", "TLC case machine spec/OpCatalog.tla over spec/TensorAlg.tla (VJP derived from forward definitions) + replay of every case",
+         "every (op, arguments, shapes) case within the stated grids is emitted by TLC with the exact expected VJP for basis/negative/generic/ones gradients and replayed in f32 and f64 for every requires-grad subset",
+         "rational operand patterns; named real functions interpreted with mpmath; grids in evidence", "5/C01"),
+ "C05": ("model_checking", "TLC case machine spec/OpCatalog.tla (forward definitions + acceptance policy) + replay of every case",
+         "forward shape/values and accept/reject policy for every case of the grids, all public forms",
+         "policy table is part of the spec; zero-size tensors excluded", "5/C05"),
+ "C10": ("model_checking", "typing layer of the TLC case machines + replay in both dtypes with cross-dtype upstream gradients",
+         "result dtype, .grad dtype/shape for every case; f32 vs f64 agreement",
+         "mixed-dtype operands unconstrained", "5/C10"),
+ "C11": ("model_checking", "frame conditions of OpCatalog/Autograd specs + byte-level snapshots during replay",
+         "operands, upstream gradients and all tensors of replayed behaviours are snapshotted and compared after every call; repeat-determinism; clone/detach storage",
+         "mutation observed through public .data/.grad arrays", "5/C11"),
  "C03": ("model_checking", "TLC on spec/Autograd.tla (forward-mode ghost vs reverse sweep, all sweep orders) + replay of every emitted program into the library",
          "every program up to the stated bounds is explored by TLC (Accumulate, SweepOnce) and executed by the library; leaf gradients, once-only and order of backward functions compared",
          "integer-valued operands; operator alphabet of the program-level spec; bounds in evidence", "5/C03"),
